@@ -489,43 +489,121 @@ def task_table(rel, ti, window, variant, nother):
 
 def _dig(e): return z3.And(e >= 48, e <= 57)
 
-def task_setup(rel, ti, symrow, nother):
-    """The real setup_table_AUTOUGH2 / setup_table_TOUGH2 (as bound by detect_simulator)
-    builds the table from a miniature listing table holding the chosen rows; then the real
-    read_table_* fills it.  In row number `symrow` of that table the name characters in
-    columns 3, 4, 5 of every key are symbolic (column 3: the printed character or any digit;
-    column 4: blank or any digit; column 5: any digit) and the digits of its numbers are
-    symbolic.  Obligations: every row name is the tuple of repaired (a3,i2) forms of the
-    printed names - single- and multi-key tables alike -, the table addressed by that
-    name returns the row addressed by index, and the cells are the printed numbers."""
-    ld = _load()
+_FILES2 = {}
+def time2_rows(rel, kind):
+    """rows of the table `kind` at the second result time of a shipped TOUGH2-family file
+    (first block, by the independent extractor), or None."""
+    if rel not in _FILES2:
+        _FILES2[rel] = cc.extract_tables(os.path.join(ROOT, rel), skip_times=1)[1]
+    for t in _FILES2[rel]:
+        if t['kind'] == kind: return t
+    return None
+
+
+def setup_rows(rel, ti, nother, pick=None):
+    """rows of the miniature table of task_setup: the longest row of the first block and
+    `nother` others (pick = 'width-change': the longest row, the first row that prints fewer
+    numbers at the second result time than at the first, and the first that prints more),
+    restricted to distinct printed names and distinct row indices, in file order."""
     fam, tabs = file_tables(rel)
     tab = tabs[ti]
-    kind = tab['kind']
-    obj = reader_object(ld, rel)
-    nkeys, cols = parse_header(obj, tab['header'])
-    int_first = cols[0] == 'I'
     rows = tab['rows']
+    int_first = tab['colnames0'] == 'I'
     li, others = cc.choose_rows(rows, nother)
-    toks_all = {k: cc.tokenize_row(rows[k], int_first) for k in [li] + others}
-    kp = cc.printed_keys(rows[li], toks_all[li][0]['start'], nkeys)
-    if kp is None: raise ValueError('extractor found no printed names in the longest row of %s/%s' % (rel, kind))
-    # rows of the miniature table: file order, distinct names and distinct row indices
+    tl = cc.tokenize_row(rows[li], int_first)
+    vstart = tl[0]['start']
+    t2 = time2_rows(rel, tab['kind']) if fam != 'AUTOUGH2' else None
+    rows2 = {}
+    if t2 is not None and t2['header'] == tab['header']:
+        for r in t2['rows']: rows2.setdefault(r[:vstart], r)
+    changes = []
+    for k, r in enumerate(rows):
+        r2 = rows2.get(r[:vstart])
+        if r2 is None: continue
+        a, b = len(cc.tokenize_row(r, int_first)), len(cc.tokenize_row(r2, int_first))
+        if a != b: changes.append((k, a, b))
+    if pick == 'width-change':
+        others = [k for k, a, b in changes if b < a and k != li][:1] + [k for k, a, b in changes if b > a and k != li][:1]
+    toks = {k: cc.tokenize_row(rows[k], int_first) for k in [li] + others}
+    kp = cc.printed_keys(rows[li], vstart, tab['nkeys'])
+    if kp is None: raise ValueError('extractor found no printed names in the longest row of %s/%s' % (rel, tab['kind']))
     sel, seen_names, seen_idx = [], set(), set()
     for k in sorted([li] + others):
         nm = tuple(rows[k][p:p + 5] for p in kp)
-        ix = cc.row_index_value(rows[k], toks_all[k][0]['start'])
+        ix = cc.row_index_value(rows[k], toks[k][0]['start'])
         if nm in seen_names or ix in seen_idx or ix is None: continue
         seen_names.add(nm); seen_idx.add(ix); sel.append(k)
+    return dict(fam=fam, tab=tab, rows=rows, li=li, sel=sel, kp=kp, vstart=vstart, int_first=int_first,
+                rows2=rows2, changes=changes)
+
+
+def width_base(R, ncols):
+    """(row, tokens) whose number fields are used for the rows of chosen widths: the longest
+    row, its last field repeated up to the number of header columns; None when no row of the
+    block prints two numbers or the rows do not start their numbers in one column."""
+    rows, li, int_first = R['rows'], R['li'], R['int_first']
+    if int_first: return None
+    tl = cc.tokenize_row(rows[li], int_first)
+    if any(cc.tokenize_row(rows[k], int_first)[0]['start'] != R['vstart'] for k in R['sel']): return None
+    base = cc.extend_row(rows[li], tl, ncols)
+    if base is None: return None
+    bt = cc.tokenize_row(base, int_first)
+    if len(bt) != max(len(tl), ncols): return None
+    return base, bt
+
+
+def _wtag(w): return 'as-printed' if w is None else ','.join(str(x) for x in w)
+
+
+def task_setup(rel, ti, symrow, nother, widths=None, widths2=None, pick=None):
+    """The real setup_table_AUTOUGH2 / setup_table_TOUGH2 (as bound by detect_simulator)
+    builds the table from a miniature listing table holding the chosen rows; then the real
+    read_table_* fills it, and fills it AGAIN from the same table as printed at a second
+    result time (the table object, its inferred layout and its cell store are reused at every
+    time).  In row number `symrow` of that table the name characters in columns 3, 4, 5 of
+    every key are symbolic (column 3: the printed character or any digit; column 4: blank or
+    any digit; column 5: any digit) and the digits of its numbers are symbolic, with
+    independent digits at the two times.
+    widths / widths2: number of numbers printed in each row at the first / second time (tables
+    that may print incomplete lines: the names and index of the row followed by that many
+    number fields of the longest row's layout); None = the rows as printed in the file (second
+    time: the rows of the same names at the file's second result time when it has one, else
+    the first-time text with fresh digits).
+    Obligations: every row name is the tuple of repaired (a3,i2) forms of the printed names -
+    single- and multi-key tables alike -, the table addressed by that name returns the row
+    addressed by index, and after each of the two reads every cell is the number printed in that
+    row and column AT THAT TIME (blank trailing cells 0)."""
+    ld = _load()
+    R = setup_rows(rel, ti, nother, pick)
+    fam, tab, rows, li, sel, kp = R['fam'], R['tab'], R['rows'], R['li'], R['sel'], R['kp']
+    kind = tab['kind']
+    obj = reader_object(ld, rel)
+    nkeys, cols = parse_header(obj, tab['header'])
+    int_first = R['int_first']
+    # ---- printed text of the rows at the two times
+    text1, text2 = {}, {}
+    if widths is not None or widths2 is not None:
+        wb = width_base(R, len(cols))
+        if wb is None: raise ValueError('no rows of chosen widths for %s/%s' % (rel, kind))
+        base, bt = wb
+    for i, k in enumerate(sel):
+        text1[k] = rows[k] if widths is None else cc.row_of_width(rows[k], base, bt, widths[i])
+        if widths2 is not None: text2[k] = cc.row_of_width(rows[k], base, bt, widths2[i])
+        elif widths is None and rows[k][:R['vstart']] in R['rows2']: text2[k] = R['rows2'][rows[k][:R['vstart']]]
+        else: text2[k] = text1[k]
+    second = 'chosen-widths' if widths2 is not None else ('file-time-2' if any(text2[k] is not text1[k] for k in sel) else 'same-text')
+    toks1 = {k: cc.tokenize_row(text1[k], int_first) for k in sel}
+    toks2 = {k: cc.tokenize_row(text2[k], int_first) for k in sel}
+    toks_all = toks1
     if fam != 'AUTOUGH2':
-        order = sorted(range(len(sel)), key=lambda i: cc.row_index_value(rows[sel[i]], toks_all[sel[i]][0]['start']))
+        order = sorted(range(len(sel)), key=lambda i: cc.row_index_value(text1[sel[i]], toks1[sel[i]][0]['start']))
     else:
         order = list(range(len(sel)))
     sr = min(symrow, len(sel) - 1)
     ks = sel[sr]
-    text = rows[ks]
-    # symbolic row
-    srow, cons = symbolize('s', text, toks_all[ks], set())
+    text = text1[ks]
+    # symbolic row (first time), and the same row at the second time: same names, fresh digits
+    srow, cons = symbolize('s', text, toks1[ks], set())
     cells = list(srow.cells)
     for p in kp:
         for off, dom in ((2, ({ord(text[p + 2])} | _DIG)), (3, ({32} | _DIG)), (4, _DIG)):
@@ -534,7 +612,15 @@ def task_setup(rel, ti, symrow, nother):
             cells[p + off] = strs.DChar(e, dom)
             cons.append(z3.Or(*[e == d for d in sorted(dom)]) if len(dom) != 10 else _dig(e))
     srow = SStr(cells)
-    expected = [expected_term(cells, t) for t in toks_all[ks]]
+    srow2, cons2 = symbolize('t', text2[ks], toks2[ks], set())
+    cells2 = list(srow2.cells)
+    for p in kp:
+        if text2[ks][p:p + 5] != text[p:p + 5]: raise ValueError('names of row %d differ between the two times' % ks)
+        for off in (2, 3, 4): cells2[p + off] = cells[p + off]
+    srow2 = SStr(cells2)
+    cons += cons2
+    expected = [expected_term(cells, t) for t in toks1[ks]]
+    expected2 = [expected_term(cells2, t) for t in toks2[ks]]
     def raw_codes(k):
         src = cells if k == ks else list(rows[k])
         return [[strs.cell_code(src[p + j]) for j in range(5)] for p in kp]
@@ -558,21 +644,29 @@ def task_setup(rel, ti, symrow, nother):
     for a in sel:
         if a == ks: continue
         distinct.append(z3.Or(*[z3.simplify(x != y) for ca, cb in zip(onames[a], onames[ks]) for x, y in zip(ca, cb)]))
-    lines, first = cc.mini_table_lines(fam, kind, tab['header'], tab['between'], [srow if k == ks else rows[k] for k in sel])
+    lines, first = cc.mini_table_lines(fam, kind, tab['header'], tab['between'], [srow if k == ks else text1[k] for k in sel])
+    lines2, _ = cc.mini_table_lines(fam, kind, tab['header'], tab['between'], [srow2 if k == ks else text2[k] for k in sel])
     failures, samples, dist = [], [], set()
-    base_key = '%s/%s/rownames' % (rel, kind)
+    shaped = widths is not None or widths2 is not None
+    if shaped: base_key = '%s/%s/widths(%s)->(%s)' % (rel, kind, _wtag(widths), _wtag(widths2))
+    elif pick: base_key = '%s/%s/%s' % (rel, kind, pick)
+    else: base_key = '%s/%s/rownames' % (rel, kind)
 
     def h(c):
         for con in cons: c.add(con)
         for d in distinct: c.add(d)
+        def rdata(m, stage):
+            return dict(mode='setup', file=rel, kind=kind, family=fam, header=tab['header'], between=tab['between'],
+                        rows=[concretize(m, srow, text) if k == ks else text1[k] for k in sel],
+                        rows2=[concretize(m, srow2, text2[ks]) if k == ks else text2[k] for k in sel],
+                        tokens=[toks1[k] for k in sel], tokens2=[toks2[k] for k in sel],
+                        keypos=kp, nkeys=nkeys, stage=stage, second=second)
         def fail(stage, what, formula=False):
             r = c.prove(formula, stage)
             if r == 'sat':
                 m = c.failures[-1]['model']
                 failures.append(dict(key='%s/%s' % (base_key, stage), what='%s %s table: %s' % (rel, kind, what),
-                                     replay=dict(mode='setup', file=rel, kind=kind, family=fam, header=tab['header'], between=tab['between'],
-                                                 rows=[concretize(m, srow, text) if k == ks else rows[k] for k in sel],
-                                                 tokens=[toks_all[k] for k in sel], keypos=kp, nkeys=nkeys, stage=stage)))
+                                     replay=rdata(m, stage)))
             return r
         obj._file = cc.LineFile(lines)
         obj._table, obj._tablenames, obj.title, obj.skip_tables = {}, [], 'C05 MINIATURE TABLE', []
@@ -602,61 +696,67 @@ def task_setup(rel, ti, symrow, nother):
             m = ([f_ for f_ in c.failures if f_['label'] == 'row-name'] or [dict(model=None)])[-1]['model']
             failures.append(dict(key='%s/row-name' % base_key,
                                  what='%s %s table: a row name is not the repaired form of the printed name(s)' % (rel, kind),
-                                 replay=dict(mode='setup', file=rel, kind=kind, family=fam, header=tab['header'], between=tab['between'],
-                                             rows=[concretize(m, srow, text) if k == ks else rows[k] for k in sel],
-                                             tokens=[toks_all[k] for k in sel], keypos=kp, nkeys=nkeys, stage='row-name')))
+                                 replay=rdata(m, 'row-name')))
             return 'name-differs'
-        # fill the table with the real read_table_*
-        obj._file.seek(0)
-        try:
-            obj.read_table(kind)
-        except sym.EngineAbort: raise
-        except Exception as ex:
-            fail('read:raises', 'read_table raised %s: %s' % (type(ex).__name__, _extext(ex))); return 'read-raises'
-        items = []
-        for pos, i in enumerate(order):
-            k = sel[i]
-            by_name = table[as_name(k)]
-            by_index = table[pos]
-            if by_name is None:
-                fail('addressing:name', 'table[repaired printed name] of row %d is None' % pos); return 'lookup-none'
-            for j, col in enumerate(cols):
-                a, b = by_name[col], by_index[col]
-                if _is_nan(a) or _is_nan(b):
-                    fail('nan', 'row %d column %s read as nan' % (pos, col)); return 'nan'
-                items.append((sym.lift_real(a) == sym.lift_real(b), 'addressing:name-vs-index'))
-                if k == ks:
-                    if j < len(expected):
-                        exp, _, oparts = expected[j]
-                        rparts = strs.num_parts(sym.lift_real(b))
-                        f = z3.And(*[x == y for x, y in zip(rparts, oparts)]) if rparts is not None else (sym.lift_real(b) == exp)
-                        dist.add(('val', j, z3.simplify(f).hash()))
-                    else: f = sym.lift_real(b) == 0
-                else:
-                    tk = toks_all[k]
-                    f = (b == (cc.token_text_value(rows[k].rstrip('\r\n'), tk[j]) if j < len(tk) else 0.0))
-                    if not isinstance(f, bool): f = bool(f)
-                items.append((f, 'value'))
-        bad = c.prove_all(items)
-        if bad:
-            lab = bad[0][0]
-            m = ([f_ for f_ in c.failures if f_['label'] == lab] or [dict(model=None)])[-1]['model']
-            failures.append(dict(key='%s/%s' % (base_key, lab), what='%s %s table: %s fails after setup_table + read_table' % (rel, kind, lab),
-                                 replay=dict(mode='setup', file=rel, kind=kind, family=fam, header=tab['header'], between=tab['between'],
-                                             rows=[concretize(m, srow, text) if k == ks else rows[k] for k in sel],
-                                             tokens=[toks_all[k] for k in sel], keypos=kp, nkeys=nkeys, stage=lab)))
-            return 'differs'
+        # fill the table with the real read_table_*, at the first time and then at the second
+        for tname, tlines, ttext, ttoks, texp in (('', lines, text1, toks1, expected), ('time2:', lines2, text2, toks2, expected2)):
+            obj._file = cc.LineFile(tlines)
+            try:
+                obj.read_table(kind)
+            except sym.EngineAbort: raise
+            except Exception as ex:
+                fail(tname + 'read:raises', 'read_table raised %s: %s' % (type(ex).__name__, _extext(ex))); return 'read-raises'
+            items = []
+            for pos, i in enumerate(order):
+                k = sel[i]
+                by_name = table[as_name(k)]
+                by_index = table[pos]
+                if by_name is None:
+                    fail(tname + 'addressing:name', 'table[repaired printed name] of row %d is None' % pos); return 'lookup-none'
+                tk = ttoks[k]
+                if len(tk) > len(cols):
+                    fail(tname + 'columns', 'row %d prints %d numbers, the header has %d columns' % (pos, len(tk), len(cols))); return 'ncols'
+                for j, col in enumerate(cols):
+                    a, b = by_name[col], by_index[col]
+                    if _is_nan(a) or _is_nan(b):
+                        fail(tname + 'nan', 'row %d column %s read as nan' % (pos, col)); return 'nan'
+                    items.append((sym.lift_real(a) == sym.lift_real(b), tname + 'addressing:name-vs-index'))
+                    if k == ks:
+                        if j < len(texp):
+                            exp, _, oparts = texp[j]
+                            rparts = strs.num_parts(sym.lift_real(b))
+                            f = z3.And(*[x == y for x, y in zip(rparts, oparts)]) if rparts is not None else (sym.lift_real(b) == exp)
+                            dist.add((tname + 'val', j, z3.simplify(f).hash()))
+                        else:
+                            f = sym.lift_real(b) == 0
+                            if not z3.is_true(z3.simplify(f)): dist.add((tname + 'blank', j, z3.simplify(f).hash()))
+                    else:
+                        want = cc.token_text_value(ttext[k].rstrip('\r\n'), tk[j]) if j < len(tk) else 0.0
+                        if isinstance(b, (int, float)): f = bool(b == want)
+                        else: f = sym.lift_real(b) == sym.lift_real(want)
+                    items.append((f, tname + 'value'))
+            bad = c.prove_all(items)
+            if bad:
+                lab = bad[0][0]
+                m = ([f_ for f_ in c.failures if f_['label'] == lab] or [dict(model=None)])[-1]['model']
+                failures.append(dict(key='%s/%s' % (base_key, lab), what='%s %s table: %s fails after setup_table + read_table%s' % (
+                                         rel, kind, lab, ' at the first and then the second result time' if tname else ''),
+                                     replay=rdata(m, lab)))
+                return 'differs'
         if not samples:
             samples.append(dict(file=rel, table=kind, simulator=obj.simulator, rows=len(sel), symbolic_row=repr(srow)[:200],
-                                row_names=repr(table.row_name)[:300]))
+                                second_time=second, symbolic_row_time2=repr(srow2)[:200],
+                                widths=[len(toks1[k]) for k in sel], widths_time2=[len(toks2[k]) for k in sel],
+                                row_names=repr(table.row_name)[:300], row_format=repr(table.row_format)[:200]))
             r, _ = c.reachable()
             if r != 'sat': return 'unreachable'
         return 'checked'
 
     res = sym.explore(h, sym.Ctx(timeout_ms=30000), max_paths=3000)
-    extra = dict(distinct_obligations=len(dist), simulator=obj.simulator)
+    extra = dict(distinct_obligations=len(dist), simulator=obj.simulator, second_time=second)
     if not [p for p in res['paths'] if p.outcome != 'unreachable']: extra['vacuous'] = True
-    return report.summarize('%s/%s/rownames/row%d' % (rel, kind, sr), res, failures, samples, extra=extra)
+    nm = '%s/%s/%s/row%d' % (rel, kind, base_key.split('/')[-1], sr)
+    return report.summarize(nm, res, failures, samples, extra=extra)
 
 
 def _name(rel, kind, window, variant):
@@ -726,7 +826,56 @@ def build_tasks(tier):
         for ti in sel:
             for sr in ((1,) if tier == 'quick' else (0, 1, 2)):
                 tasks.append((task_setup, dict(rel=rel, ti=ti, symrow=sr, nother=2)))
-    return tasks, len(files), ntables, K, nother
+    # row widths and result times (task_setup with chosen widths): generation tables of the TOUGH2
+    # family may print incomplete lines (table_expected_floats), so the number of numbers printed in
+    # each row - at the time the table is set up and at a later time - is a shape of its own
+    nshape = nchange = 0
+    for rel in files:
+        fam, tabs = file_tables(rel)
+        if fam == 'AUTOUGH2': continue
+        for ti, t in enumerate(tabs):
+            R = setup_rows(rel, ti, 2)
+            if t['kind'] == 'generation':
+                for w1, w2 in width_shapes(rel, ti, tier):
+                    for sr in ((1,) if tier == 'quick' else range(len(w1))):
+                        tasks.append((task_setup, dict(rel=rel, ti=ti, symrow=sr, nother=2, widths=w1, widths2=w2)))
+                        nshape += 1
+            # rows whose printed width differs between the first two result times of the shipped file
+            if any(k != R['li'] for k, a, b in R['changes']):
+                for sr in (0, 1, 2):
+                    tasks.append((task_setup, dict(rel=rel, ti=ti, symrow=sr, nother=2, pick='width-change')))
+                    nchange += 1
+    return tasks, len(files), ntables, K, nother, nshape, nchange
+
+
+def width_shapes(rel, ti, tier):
+    """[(widths at the first time, widths at the second time)] for the rows of the miniature table:
+    every order of three different widths (shortest / middle / full number of header columns;
+    thorough: also the three largest), so that the longest row stands first, in the middle and
+    last with the other two in both orders; at the second time the widths are rotated by one row,
+    so that every row changes its width and at least one prints fewer numbers than before."""
+    import itertools
+    R = setup_rows(rel, ti, 2)
+    obj = reader_object(_load(), rel)
+    nkeys, cols = parse_header(obj, R['tab']['header'])
+    wb = width_base(R, len(cols))
+    if wb is None: return []
+    n, nsel = len(wb[1]), len(R['sel'])
+    if n < 2: return []
+    sets = [sorted(set([1, (n + 1) // 2, n]))]
+    if tier == 'thorough' and n >= 3 and sorted(set([n - 2, n - 1, n])) not in sets: sets.append([n - 2, n - 1, n])
+    out = []
+    for W in sets:
+        if nsel == 1: multis = [(W[-1],)] + ([(W[0],)] if tier == 'thorough' else [])
+        elif nsel == 2: multis = [(W[0], W[-1])]
+        elif len(W) >= 3: multis = [tuple(W[:3])]
+        else: multis = [(W[0], W[1], W[1])] + ([(W[0], W[0], W[1])] if tier == 'thorough' else [])
+        for ms in multis:
+            for w1 in sorted(set(itertools.permutations(ms))):
+                if nsel == 1: w2 = (W[0],) if w1[0] != W[0] else (W[-1],)
+                else: w2 = w1[1:] + w1[:1]
+                if (w1, w2) not in out: out.append((w1, w2))
+    return out
 
 
 def validate_reader(rep, limit=2500):
@@ -785,7 +934,7 @@ def validate_reader(rep, limit=2500):
 def run(tier, seed, rep):
     _load()
     nval, nbad = validate_reader(rep)
-    tasks, nfiles, ntables, K, nother = build_tasks(tier)
+    tasks, nfiles, ntables, K, nother, nshape, nchange = build_tasks(tier)
     results = report.run_tasks(tasks)
     rep.add_results(results)
     for r in results:
